@@ -13,17 +13,19 @@ K = lambda name, file, fn: dict(name=name, target=("oxidize-pdf-core/src/" + fil
 
 PROPS = {
     "C01": dict(
-        verus=["tokenizer", "runlength", "gss", "xrefstream", "glyf", "guards", "predictor", "pngrows", "flatten"],
+        verus=["tokenizer", "runlength", "gss", "xrefstream", "glyf", "guards", "predictor", "pngrows", "flatten", "bounded"],
+        standins=["a85hex"],
         kani=[K("c01_hex_digit_value", "parser/filters.rs", "hex_digit_value")],
         level_text="panic-freedom (index, slice range, overflow, division), termination and output bounds proved per listed function for all inputs; the whole-program 'never crashes' claim is NOT made",
         not_decided="the I/O shells (reader.rs, xref.rs parse/recovery, object_stream.rs, page_tree.rs), LZW dictionary growth, CCITT/JBIG2/DCT decoders, text extraction, allocation sizes, wall-clock bounds",
     ),
     "C03": dict(
-        verus=["xrefstream", "strings"],
+        verus=["xrefstream", "strings", "names"],
         not_decided="byte offsets of classic xref entries ({:010} text), startxref, /Size, reference resolution, strict-parser acceptance (all in write_document's I/O sequence); names (see C30)",
     ),
     "C09": dict(
-        verus=["strings", "incr"],
+        verus=["strings", "incr", "names"],
+        standins=["fmt"],
         not_decided="integers/reals (number text), arrays/dictionaries nesting, object streams, names (C30), the ISO-reader lemma for EOL handling",
     ),
     "C12": dict(
@@ -44,11 +46,18 @@ PROPS = {
         not_decided="inflate (dependency), unfilter_row pending, bit-depth expansion, palettes, tRNS, interlace, XObject assembly, SMask",
     ),
     "C25": dict(
+        standins=["enc-tables"],
         kani=[K("c25_winansi_encode_char_annexd", "text/encoding.rs", "winansi_encode_char"),
               K("c25_winansi_decode_char_contract", "text/encoding.rs", "winansi_decode_char"),
               K("c25_winansi_inverse", "text/encoding.rs", "winansi_encode_char/winansi_decode_char"),
               K("c25_macroman_encode_char_annexd", "text/encoding.rs", "macroman_encode_char")],
         not_decided="TextEncoding::{encode, encode_strict, decode} (str::chars/String: outside both verifiers); StandardEncoding/PDFDocEncoding tables",
+    ),
+    "C30": dict(
+        verus=["names", "incr"],
+        standins=["fmt"],
+        level_text="the four dictionary-level name emission sites of the main writer and the incremental writer's write_name are proved to emit an ISO name token that decodes to the given bytes; content-stream operator names (/{name} Do through writeln!/format!) have NO deductive unit",
+        not_decided="operator names in content streams (graphics ops, page.rs: formatted text outside both verifiers), resource dictionary assembly, form field names, that the library's own lexer decodes #XX to the same string for non-ASCII bytes",
     ),
     "C28": dict(
         verus=["outline"],
@@ -56,6 +65,7 @@ PROPS = {
     ),
     "C17": dict(
         verus=["incr", "prevmerge"],
+        standins=["fmt"],
         not_decided="write_trailer text, /ID computation (md5), that the chain parses in a reader, incremental_form_fill / incremental_text_notes field-tree resolution; termination of write_object/write_dictionary (recursion through an opaque dictionary) is not proved",
     ),
     "C18": dict(
@@ -97,12 +107,14 @@ PROPS = {
         not_decided="CMap tokenizer/parser, bfrange array form, code-space rejection, ToUnicode builder round trip",
     ),
     "C07": dict(
-        verus=["runlength", "pngrows", "predictor"],
+        verus=["runlength", "pngrows", "predictor", "bounded"],
+        standins=["a85hex-roundtrip"],
         kani=[K("c07_paeth_predictor_png_spec", "parser/filters.rs", "paeth_predictor")],
         not_decided="LZW, CCITT, Flate (dependency), ASCIIHex/ASCII85 (iterator adapters; outside Verus), PNG/TIFF predictors pending",
     ),
     "C08": dict(
-        verus=["runlength"],
+        verus=["runlength", "bounded"],
+        standins=["a85hex"],
         not_decided="Flate/LZW bounded paths; ASCIIHex/ASCII85 limits; decode_stream_with_limit glue pending",
     ),
     "C21": dict(
@@ -112,6 +124,7 @@ PROPS = {
     ),
     "C27": dict(
         verus=["pagelabels"],
+        standins=["letters"],
         not_decided="decimal formatting (u32::to_string), to_uppercase, range lookup and number-tree serialisation pending",
     ),
     "C29": dict(
